@@ -7,6 +7,16 @@ import signal
 import time
 
 MAX_VIOLATIONS_KEPT = 40
+KNOWN_KEYS = set()             # keys of listed known findings of the property being run
+FAIL_FAST_AFTER = 400          # violating cases per chunk after which the chunk stops exploring
+
+
+class EnoughViolations(Exception):
+    """Raised by Part.violation once a chunk has seen FAIL_FAST_AFTER violating cases."""
+
+    def __init__(self, part):
+        super().__init__("enough violations")
+        self.part = part
 
 
 class Ctx:
@@ -33,6 +43,7 @@ class Part:
         self.counters = {}
         self.violations = []        # dicts: key, msg, case
         self.violation_count = 0
+        self.unlisted_count = 0     # violating cases whose key is not a listed known finding
         self.samples = []
         self.sets = {}              # name -> set of hashable items (merged by union)
 
@@ -44,6 +55,12 @@ class Part:
         if len(self.violations) < MAX_VIOLATIONS_KEPT and \
                 all(v["key"] != key for v in self.violations):
             self.violations.append({"key": key, "msg": msg, "case": case})
+        if key not in KNOWN_KEYS:
+            self.unlisted_count += 1
+        if self.unlisted_count >= FAIL_FAST_AFTER:
+            # the verdict is settled; do not keep exploring a tree that is broken (a defect can
+            # also make every further case slower, e.g. state that grows across calls)
+            raise EnoughViolations(self)
 
     def add(self, name, item):
         self.sets.setdefault(name, set()).add(item)
@@ -78,6 +95,20 @@ def _worker_init():
     signal.signal(signal.SIGINT, signal.SIG_IGN)
 
 
+class _Guarded:                                     # pylint: disable=too-few-public-methods
+    """Picklable wrapper: a chunk that hits the fail-fast limit returns what it has."""
+
+    def __init__(self, func):
+        self.func = func
+
+    def __call__(self, chunk):
+        try:
+            return self.func(chunk)
+        except EnoughViolations as stop:
+            stop.part.count("chunks_stopped_early")
+            return stop.part
+
+
 def fan_out(ctx, func, chunks):
     """Apply func(chunk) -> Part to every chunk, results folded in chunk order.
 
@@ -86,14 +117,20 @@ def fan_out(ctx, func, chunks):
     """
     total = Part()
     chunks = list(chunks)
+    func = _Guarded(func)
     if ctx.jobs <= 1 or len(chunks) <= 1:
         for chunk in chunks:
             total.merge(func(chunk))
+            if total.counters.get("chunks_stopped_early"):
+                break
         return total
     mp_ctx = multiprocessing.get_context("fork")
     with mp_ctx.Pool(min(ctx.jobs, len(chunks)), initializer=_worker_init) as pool:
         for part in pool.imap(func, chunks, chunksize=1):
             total.merge(part)
+            if total.counters.get("chunks_stopped_early", 0) >= 4:
+                pool.terminate()                    # broken tree: the verdict is settled
+                break
     return total
 
 
